@@ -17,6 +17,7 @@ use std::path::{Path, PathBuf};
 use std::process::Command;
 use std::time::Duration;
 
+use rustfmt_nightly::verif_hooks::cfgif as hcfg;
 use rustfmt_nightly::verif_hooks::modules as hm;
 use serde_json::{json, Value};
 
@@ -1469,6 +1470,37 @@ pub fn run(tier: &str, seed: u64, out: &Path) -> i32 {
         for ((d, name, rel), ans) in &r.hook_dsp {
             let req = format!("mod.default_submod_path {} {} {} {}", p.fs, enc_path(&pjoin(&base_s, d)), enc_str(name), rel.as_deref().map(enc_str).unwrap_or_else(|| "-".into()));
             o.push("corr", "mod.default_submod_path", req, ans.clone(), desc.clone(), !ans.starts_with("err:notfound"));
+        }
+        // mod.parse_macro: parse_cfg_if / parse_cfg_match alone (in-process hook on the text of one call) against
+        // parseMacroBody; at most three calls per tree
+        let mut n_mac = 0;
+        for f in &all_items {
+            for it in f.items.iter().filter(|it| matches!(it, Item::CfgIf { .. } | Item::CfgMatch { .. })) {
+                if n_mac >= 3 {
+                    break;
+                }
+                n_mac += 1;
+                let mut text = String::new();
+                render_items(std::slice::from_ref(it), "", &mut text);
+                let ans = match std::panic::catch_unwind(|| hcfg::macro_mods(&text)) {
+                    Ok(Ok(v)) if v.len() == 1 => {
+                        let m = &v[0];
+                        let mods = match &m.mods {
+                            Err(_) => "err".to_string(),
+                            Ok(ms) if ms.is_empty() => "_".to_string(),
+                            Ok(ms) => ms.iter().map(|x| if let Some(n) = x.strip_suffix("{}") { format!("i{}", enc_str(n)) } else { format!("e{}", enc_str(x.trim_end_matches(';'))) }).collect::<Vec<_>>().join(","),
+                        };
+                        format!("{}:{}", m.kind, mods)
+                    }
+                    Ok(Ok(v)) => format!("!{}-calls", v.len()),
+                    Ok(Err(e)) => format!("!{}", e),
+                    Err(_) => "panic".into(),
+                };
+                let mut toks = vec!["1".to_string()];
+                enc_item(it, &mut toks);
+                let nontriv = ans.ends_with(":err") || ans.contains(',');
+                o.push("corr", "mod.parse_macro", format!("mod.parse_macro {}", toks.join(",")), ans, desc.clone(), nontriv);
+            }
         }
         // mod.stat: the model's file system against the OS, on spellings with `.` / `..` (absolute keys only)
         if !rel_mode {
